@@ -6,6 +6,7 @@ import (
 	"fmt"
 	"sort"
 	"strings"
+	"sync"
 	"time"
 
 	"github.com/resgateio/resgate/server/mq"
@@ -98,13 +99,17 @@ type SeamEvent struct {
 
 // Transport implements mq.Client.
 type Transport struct {
-	s         *Sim
-	subs      map[string]*tSub
-	subGen    map[string]int
-	reqs      []*Req
-	reqCount  map[string]int
-	fifos     map[string][]*Msg
-	bag       []*Msg
+	s        *Sim
+	subs     map[string]*tSub
+	subGen   map[string]int
+	reqs     []*Req
+	reqCount map[string]int
+	fifos    map[string][]*Msg
+	bag      []*Msg
+	// listener goroutine (see listen)
+	lmu       sync.Mutex
+	lq        []func()
+	lrunning  bool
 	msgN      int
 	closed    bool
 	connected bool
@@ -534,13 +539,47 @@ func (t *Transport) deliver(id string) bool {
 	switch m.Kind {
 	case "reply":
 		r := m.Req
-		go r.cb("", m.Payload, m.Err)
+		if m.Err != nil {
+			// timeouts and other transport-made completions come from goroutines of their own
+			go r.cb("", m.Payload, m.Err)
+		} else {
+			t.listen(func() { r.cb("", m.Payload, nil) })
+		}
 	case "event":
 		if m.Sub.active {
-			go m.Sub.cb(m.Subj, m.Payload, nil)
+			sub := m.Sub
+			t.listen(func() { sub.cb(m.Subj, m.Payload, nil) })
 		}
 	}
 	return true
+}
+
+// listen hands a message to the listener goroutine: like the NATS adapter, the
+// transport calls the gateway's message callbacks one after the other from a
+// single goroutine, in the order of delivery.
+func (t *Transport) listen(f func()) {
+	t.lmu.Lock()
+	t.lq = append(t.lq, f)
+	if !t.lrunning {
+		t.lrunning = true
+		go t.listener()
+	}
+	t.lmu.Unlock()
+}
+
+func (t *Transport) listener() {
+	for {
+		t.lmu.Lock()
+		if len(t.lq) == 0 {
+			t.lrunning = false
+			t.lmu.Unlock()
+			return
+		}
+		f := t.lq[0]
+		t.lq = t.lq[1:]
+		t.lmu.Unlock()
+		f()
+	}
 }
 
 func (t *Transport) idleEmpty() bool {
